@@ -48,10 +48,27 @@ func concPolicy(args []string, out *bufio.Writer) {
 				stMu.Unlock()
 			}
 		}
+		// every fifth script is "big": thousands of keys below a large maximum, with a processor count that does not divide the
+		// table length, so that the table grows through the parallel copy while the policy is told about every entry
+		big := i%5 == 4 && !stall
+		prevProcs := runtime.GOMAXPROCS(0)
+		if big {
+			runtime.GOMAXPROCS(pick(r, []int{3, 5, 6, 7, 12}))
+			if weighted {
+				o.MaximumWeight = 40000
+			} else {
+				o.MaximumSize = 20000
+			}
+		}
 		c := otter.Must(o)
 		nkeys := 2 + r.intn(8)
 		writers := 2 + r.intn(7)
 		rounds := 10 + r.intn(20)
+		if big {
+			nkeys = 3000 + r.intn(4000)
+			writers = 2 + r.intn(3)
+			rounds = 2
+		}
 		if stall {
 			writers = 1 + r.intn(3)
 			rounds = 2 + r.intn(3)
@@ -65,6 +82,9 @@ func concPolicy(args []string, out *bufio.Writer) {
 					defer wg.Done()
 					lr := &rng{s: ws}
 					ops := 40 + lr.intn(200)
+					if big {
+						ops = 2 * nkeys / writers
+					}
 					if stall {
 						ops = (160*runtime.GOMAXPROCS(0))/writers + lr.intn(400)
 					}
@@ -129,5 +149,6 @@ func concPolicy(args []string, out *bufio.Writer) {
 			fmt.Fprintf(out, "audit round=%d %s all=%d coldest=%d wsize=%d stalled=%v wbpeak=%d\n", round, otter.VerifAudit(c), all, coldest, c.WeightedSize(), stall, wbFull)
 		}
 		c.StopAllGoroutines()
+		runtime.GOMAXPROCS(prevProcs)
 	}
 }
